@@ -22,7 +22,7 @@ ASSUMPTIONS = ["a customer whose priority changes while queueing joins the tail 
                "restarts of schedule-interrupted customers and slotted nodes are C12's subject"]
 WALL = {"quick": 150, "thorough": 540}
 
-ALLOWED = ["schedule", "capacity", "priorities", "prio_preempt", "batching", "cc_after", "cc_waiting", "discipline", "server_priority",
+ALLOWED = ["schedule", "sched_preempt", "slotted", "slot_capacitated", "slot_preempt", "capacity", "priorities", "prio_preempt", "batching", "cc_after", "cc_waiting", "discipline", "server_priority",
            "routing_objects", "process_routing", "self_loops", "zero_service", "inf", "reneging", "system_capacity"]
 
 
@@ -63,9 +63,9 @@ def disc_execute(case):
 def subchecks(tier):
     w = {"schedule": 0.2, "capacity": 0.3, "priorities": 0.8, "prio_preempt": 0.3, "batching": 0.4, "cc_after": 0.25, "cc_waiting": 0.3,
          "discipline": 0.7, "server_priority": 0.2, "routing_objects": 0.3, "process_routing": 0.2, "self_loops": 0.4, "zero_service": 0.3,
-         "inf": 0.1, "reneging": 0.15, "system_capacity": 0.1, "sched_preempt": 0.0}
+         "inf": 0.1, "reneging": 0.15, "system_capacity": 0.1, "sched_preempt": 0.4, "slotted": 0.2, "slot_capacitated": 0.6, "slot_preempt": 0.6}
     prof = S.Profile(ALLOWED, weights=w, numeric="mixed", max_nodes=3, max_classes=3, plans=("max_time", "max_customers"),
-                     horizon=(5.0, 14.0), budget=600, load="heavy", excluded=common.EXCL["C08"])
+                     horizon=(5.0, 14.0), budget=600, load="heavy", excluded=("sched_reroute_blocked", "sched_preempt_blocked_cc", "cc_preempt_after_restart"))
     return [
         system_subcheck("system", prof, lambda spec: [ServiceOrder(spec)], nontrivial, classes=classes, obs=True,
                         n={"quick": 7200, "thorough": 40000}, rule="service starts vs priority/discipline oracle"),
